@@ -876,7 +876,7 @@ func mutateAll(r *rand.Rand, base definition.PipelinesDef) ([]c17mut, string) {
 func init() {
 	register(&Check{
 		ID: "C17", Level: "exploration",
-		Rule:        "three case kinds over generated definition sets (1-4 files pipelines.yml / pipelines.yaml in nested directories incl. non-ASCII names, 1-3 pipelines each over ALL fields, emitted through yaml.v2 from a generic tree; in a quarter of the valid sets and a third of the corrupted ones one file is a symbolic link to a file of another name: strategy as string, durations as strings, zero values sometimes explicit sometimes omitted): (a) valid set: LoadRecursively must succeed, satisfy an independent re-statement of every listed constraint, equal the generating definitions after defaults (SourcePath = file), and give the same result when the same files are created in another order; (b) one constraint broken in one place (19 corruption kinds incl. integer queue strategies, blank and null dependencies, duplicate name in a second file (different and verbatim content) and unparsable YAML): load must fail; (c) Equals: reflexive on a deep copy, symmetric, and false for every single-field edit produced by a REFLECTION-driven mutator over PipelinesDef -> PipelineDef -> TaskDef (int, *int incl. nil<->0, Duration, bool, string, []string append/drop/edit/swap, append/prepend an empty entry, merge two neighbouring entries with one of 8 separators (newline, nothing, blank, comma, ...), split an entry at a separator, map[string]string add key with empty value / rename key whose value is empty / change value / remove key, map of structs add / remove / rename entry); a field of a kind the mutator cannot perturb makes the run inconclusive (exit 2), so a new field cannot be silently skipped. A situation is the corruption kind resp. (field, operator)",
+		Rule:        "three case kinds over generated definition sets (1-4 files pipelines.yml / pipelines.yaml in nested directories incl. non-ASCII names, 1-3 pipelines each over ALL fields, emitted through yaml.v2 from a generic tree; in a quarter of the valid sets and a third of the corrupted ones one file is a symbolic link to a file of another name: strategy as string, durations as strings, zero values sometimes explicit sometimes omitted): (a) valid set: LoadRecursively must succeed, satisfy an independent re-statement of every listed constraint, equal the generating definitions after defaults (SourcePath = file), and give the same result when the same files are created in another order; (b) one constraint broken in one place (19 corruption kinds incl. integer queue strategies, blank and null dependencies, duplicate name in a second file (different and verbatim content) and unparsable YAML): load must fail; (c) Equals: reflexive on a deep copy, symmetric, and false for every single-field edit produced by a REFLECTION-driven mutator over PipelinesDef -> PipelineDef -> TaskDef (int, *int incl. nil<->0, Duration, bool, string, []string append/drop/edit/swap, append/prepend an empty entry, merge two neighbouring entries with one of 8 separators (newline, nothing, blank, comma, ...), split an entry at a separator, map[string]string add key with empty value / rename key whose value is empty / change value / remove key, map of structs add / remove / rename entry); a field of a kind the mutator cannot perturb makes the run inconclusive (exit 2), so a new field cannot be silently skipped. A situation is the corruption kind resp. (field, operator). A quarter of the valid sets hold a pipeline that says nothing (written as YAML null or {}): it loads with every default",
 		Assumptions: []string{"duplicate keys inside one YAML file are merged by yaml.v2 (last wins) and are not generated"},
 		Cases:       func(t string) int { return tierN(t, 900, 24000) },
 		RunCase:     c17LoadCase,
